@@ -248,7 +248,8 @@ def run_property(pid, tier):
         reported.add(key)
         nviol += 1
         path = write_replay(pid, nviol, {"property": pid, **v})
-        lines.append(f"VIOLATION property={pid} replay={os.path.relpath(path, OUT_ROOT)}   # {v.get('function')}: {str(v.get('clause'))[:140]}")
+        tail = " no-failing-input-found" if v.get("no_failing_input") else ""
+        lines.append(f"VIOLATION property={pid} replay={os.path.relpath(path, OUT_ROOT)}   # {v.get('function')}: {str(v.get('clause'))[:140]}{tail}")
         if nviol >= 5:
             break
     if not native_viol or nviol == 0:
@@ -270,6 +271,9 @@ def run_property(pid, tier):
     native_errors = [n["error"] for n in natives if n.get("error")]
     if native_errors and exit_code == 0:
         exit_code = 3
+    undecided_native = [u for n in natives for u in n.get("error_undecided", [])]
+    if undecided_native and exit_code == 0:
+        exit_code = 2
 
     # ---- evidence
     n_obl = len(instances)
@@ -330,6 +334,8 @@ def run_property(pid, tier):
         print(f"NATIVE-ERROR {e[:500]}")
     for r in regressions_open[:20]:
         print(f"UNDECIDED obligation={r['name']} ({r['why']})")
+    for u in undecided_native[:20]:
+        print(f"UNDECIDED {u}")
     for ln in known_lines:
         print(ln)
     for ln in lines:
